@@ -94,10 +94,35 @@ def clampRate (isNaN : α → Bool) (acc : α) : α :=
   let a : α := if isNaN acc then 0.0 else acc
   if (1.0 : α) < a then 1.0 else a
 
-/-- one autotune update; `w = (i+1)^(-learning_rate)` -/
-def autotuneStep (isNaN : α → Bool) (w target minStep acc step : α) : α :=
-  let s := step - w * (target - clampRate isNaN acc)
+/-- the update given the clamped rate `m = min(rate, 1)`; `w = (i+1)^(-learning_rate)`:
+    `stepsize -= w * (target - m)`, then clamp to the minimal step if it went non-positive -/
+def autotuneCore (w target minStep m step : α) : α :=
+  let s := step - w * (target - m)
   if s ≤ 0.0 then (if s < minStep then minStep else s) else s
+
+/-- one autotune update as the code does it -/
+def autotuneStep (isNaN : α → Bool) (w target minStep acc step : α) : α :=
+  autotuneCore w target minStep (clampRate isNaN acc) step
+
+/-- tuning state: current step and the recorded histories -/
+structure Tune (α : Type) where
+  step : α
+  steps : List α      -- `stepsizes[0..]`
+  rates : List α      -- `acceptance_rates[0..]`
+
+/-- proposal `i` completed with acceptance probability `acc`: record, then update -/
+def tuneStep (isNaN : α → Bool) (weight : Nat → α) (target minStep : α) (t : Tune α) (i : Nat) (acc : α) : Tune α :=
+  { step := autotuneStep isNaN (weight i) target minStep acc t.step,
+    steps := t.steps ++ [t.step],
+    rates := t.rates ++ [acc] }
+
+/-- a whole autotuned run from proposal index `i0` on -/
+def tuneRun (isNaN : α → Bool) (weight : Nat → α) (target minStep : α) : Tune α → Nat → List α → Tune α
+  | t, _, [] => t
+  | t, i, acc :: rest => tuneRun isNaN weight target minStep (tuneStep isNaN weight target minStep t i acc) (i + 1) rest
+
+/-- learning rates outside (0.5, 1] are refused -/
+def learningRateOk (lr : α) : Bool := decide ((0.5 : α) < lr) && decide (lr ≤ (1.0 : α))
 end autotune
 
 end HmcVerif
